@@ -53,4 +53,4 @@ def vsrc_harnesses():
 
 
 def harnesses(tier, seed):
-    return select(all_harnesses() + vsrc_harnesses(), tier, seed, 4, budget=4200)
+    return select(all_harnesses() + vsrc_harnesses(), tier, seed, 4)
